@@ -169,6 +169,9 @@ def _finish(ctx, case, net, mon, sig):
             if not r["ok"]:
                 ctx.clause("failed_tx_returns")
     ctx.clause("role_changes", roles)
+    ctx.distinct("air_order_digests", net.air_digest())
+    for st in net.radio_states():
+        ctx.distinct("radio_states", st)
     for k, v in mon.sites.items():
         ctx.count("return_site:%s:%s:%s" % k, v)
     if roles > len(net.nodes):
